@@ -127,6 +127,12 @@ def extra_return(run, s, kw):
                 d["optok"] = bool(ftrue - fs <= tol * (1.0 + fs))
             else:
                 d["optok"] = bool(s.obj - fs <= tol * (1.0 + fs))
+                # ... and the objective AT the returned point, recomputed from the data and the caller's own h (a stored value that is too low must not pass for optimality)
+                hfun = run.P["kwargs"].get("h")
+                if hfun is not None and s.x is not None:
+                    xr = np.asarray(s.x, dtype=float)
+                    ftrue = float(np.sum(np.asarray(run.P["resid"](xr), dtype=float) ** 2)) + float(hfun(xr, *tuple(run.P["kwargs"].get("argsh", ()))))
+                    d["optok"] = d["optok"] and bool(ftrue - fs <= tol * (1.0 + fs))
             d["fstar"] = fs
             sa = run.P.get("seen_args")
             if sa is not None and inst.get("args"):
